@@ -742,6 +742,85 @@ def opQparse (text : String) : String :=
   | .reject => "reject"
   | .skip => "-"
 
+/-- `cparse <commitments text>` -/
+def opCparse (text : String) : String :=
+  let p : Parser String := do
+    pChar '('
+    let k ← pWord
+    pChar ','
+    match digestKind k with
+    | none => pBad
+    | some D => do
+      let t ← pList D.parse
+      pChar ','
+      let c ← D.parse
+      pChar ','
+      let f ← pList D.parse
+      pChar ')'
+      if f.isEmpty then pBad
+      else
+        let bytes := commitmentsNew D.c t c f
+        if commitments.wpanic bytes then pure "wpanic"
+        else
+          match commitmentsParse D.c bytes t.length (f.length - 1) with
+          | .ok (t', c', f') => pure s!"ok {showList D.shw t'} {D.shw c'} {showList D.shw f'}"
+          | .err => pure "err"
+          | .eof => pure "eof"
+          | .panic => pure "panic"
+  match p text.toList with
+  | .ok s [] => s
+  | .ok _ _ => "bad-op"
+  | .bad => "bad-op"
+  | .reject => "reject"
+  | .skip => "-"
+
+/-- `oparse <oodframe text>` (trace states and evaluations both set) -/
+def opOparse (text : String) : String :=
+  let p : Parser String := do
+    pChar '('
+    let ek ← pWord
+    pChar ','
+    match elemKind ek with
+    | none => pBad
+    | some (E, _) => do
+      pChar 'S'
+      pChar '('
+      let w ← pNumBits 64
+      pChar ','
+      let cur ← pList E.parse
+      pChar ','
+      let next ← pList E.parse
+      pChar ','
+      let lag ← pOpt (pList E.parse)
+      pChar ')'
+      pChar ','
+      pChar 'S'
+      let ev ← pList E.parse
+      pChar ')'
+      if cur.length ≠ next.length then pReject
+      else
+        match oodSetTraceStates E.c cur next lag, oodSetEvaluations E.c ev with
+        | some (ts, l), some eb =>
+          if w = 0 ∨ w > cur.length then pBad
+          else
+            let hasLag := match lag with
+              | some (_ :: _) => true
+              | _ => false
+            let aux := cur.length - w + (if hasLag then 1 else 0)
+            match oodParse E.c ⟨ts, l, eb⟩ w aux ev.length with
+            | .ok (c, n, lg, e) =>
+              pure s!"ok {showList E.shw c} {showList E.shw n} {showOpt (showList E.shw) lg} {showList E.shw e}"
+            | .err => pure "err"
+            | .eof => pure "eof"
+            | .panic => pure "panic"
+        | _, _ => pReject
+  match p text.toList with
+  | .ok s [] => s
+  | .ok _ _ => "bad-op"
+  | .bad => "bad-op"
+  | .reject => "reject"
+  | .skip => "-"
+
 def handle : List String → String
   | ["enc", ty, text] =>
     match typeOf ty with
@@ -756,6 +835,8 @@ def handle : List String → String
     | some v => opVint v
     | none => "bad-op"
   | ["qparse", text] => opQparse text
+  | ["cparse", text] => opCparse text
+  | ["oparse", text] => opOparse text
   | _ => "-"
 
 end Drv.C12
